@@ -9,6 +9,7 @@ RULE = ('scenarios on the ASan+UBSan build with exact-size heap buffers, the SCP
         'every result writer (incl. floats, arrays in both byte orders, streamed blocks) and the error/introspection calls; complete NUL-terminated lines handed straight to SCPI_Parse. '
         'The oracle is the absence of sanitizer/watchdog events; scenarios whose operations the model covers are also compared with the model. '
         'Non-trivial: a scenario in which at least one handler ran or an error other than overrun was raised; distinct = distinct lines.')
+THOROUGH_EXTRA = 'thorough tier: plus a coverage-guided search (libFuzzer, 240 s x 8 jobs) over the scenario runner; findings are re-run as cases'
 MODELLED = ('the model covers the logic (cursor bounds, progress, buffer indices: theorems of Properties_C01); real memory safety lives in the compiled code and is decided by the sanitised run, '
             'not by a theorem -- this property is claimed as partial (DESIGN.md section 7/C01)')
 ASSUMPTIONS = ['forming pos + blocklen beyond one-past-the-end is UB by the letter of C that neither UBSan nor the model flags', 'public API misuse (SCPI_Match with an empty header) is outside the quantifier']
@@ -116,6 +117,21 @@ def streams(tier, rng):
         cases = [make(rng) for _ in range(n if fl == 'default' else n // 3)]
         yield {'name': 'streams-' + fl, 'coqcheck': fl == 'default', 'flavor': fl, 'cases': cases, 'model': fl in ('default',), 'project': project,
                'nontrivial': lambda c, o: c if (' H' in o or ' E-1' in o or ' E-2' in o) else None}
+    if tier == 'thorough':
+        # coverage-guided search with libFuzzer over the same scenario runner (a search aid only): inputs it finds that end in a
+        # sanitizer report, a leak or a timeout are re-run below as ordinary cases, so that they are reported with a replay
+        import os as _os
+        tables = []
+        for _ in range(12):
+            pats = gen.PATS[:]
+            rng.shuffle(pats)
+            tables.append(''.join('|C %d %s %s' % (tag, vf.hx(p), xscript(rng)) for tag, p in enumerate(pats)))
+        corpus = []
+        for _ in range(300):
+            corpus.append(bytes([rng.randrange(12), rng.getrandbits(8), rng.randrange(12), rng.getrandbits(8)]) + xmsg(rng) + (xmsg(rng) if rng.random() < 0.3 else b''))
+        secs = int(_os.environ.get('VERIF_FUZZ_SECONDS', '240'))
+        found, note = vf.fuzz_search(tables, corpus, secs, int(_os.environ.get('VERIF_SEED', '1') or 1))
+        yield {'name': 'fuzz-found', 'cases': found, 'model': False, 'note': note, 'project': project, 'nontrivial': lambda c, o: c}
     # the formatting helpers a handler may call on what it decoded (exact-size buffers; judged by the sanitizer only)
     from props import C15
     for st in C15.streams(tier, rng):
